@@ -9,7 +9,7 @@
 //! representation.
 
 use serde::{Deserialize, Serialize};
-use std::collections::{HashMap, HashSet};
+use std::collections::{BTreeMap, HashSet};
 
 use crate::{
     encoding::{TirRoot, TirVersion},
@@ -100,7 +100,7 @@ impl AssetExpr {
 #[derive(Serialize, Deserialize, Debug, Clone, PartialEq, Eq)]
 pub struct AdHocDirective {
     pub name: String,
-    pub data: HashMap<String, Expression>,
+    pub data: BTreeMap<String, Expression>,
 }
 
 #[derive(Serialize, Deserialize, Debug, Clone, PartialEq, Eq)]
@@ -583,7 +583,7 @@ impl Node for Signers {
     }
 }
 
-impl Node for HashMap<String, Expression> {
+impl Node for BTreeMap<String, Expression> {
     fn apply<V: Visitor>(self, visitor: &mut V) -> Result<Self, crate::reduce::Error> {
         let visited: Vec<_> = self
             .into_iter()
